@@ -40,7 +40,9 @@ impl S3Storage {
     pub fn storage_data_on_cloud(db: &Database, reclame_space: bool, db_name: &String) -> u32 {
         let mut changed_keys = 0;
         let rt = Runtime::new().unwrap();
-        let keys_to_update = get_keys_to_update(db, reclame_space);
+        // Both objects are rewritten whole: they must hold every key, not only the changed ones
+        let _ = reclame_space;
+        let keys_to_update = get_keys_to_update(db, true);
 
         let key_buffer = BytesMut::with_capacity(OP_RECORD_SIZE * 10);
         //@todo should this really be te buffer size of the values????
